@@ -4,6 +4,7 @@ import Mdsort.Proofs.LimitsText
 import Mdsort.Proofs.L0RefineUtil
 import Mdsort.Proofs.ConfErrors
 import Mdsort.Proofs.MainText
+import Mdsort.Model.Start
 
 /-!
 # C18 - over-long paths are rejected, never truncated
@@ -435,5 +436,188 @@ example :
       | .ok none => true
       | _ => false) = true := by
   decide +kernel
+/-! ## The default configuration path and the environment (mdsort.c `defaultconf`, `readenv`) -/
+
+theorem confSuffix_length : confSuffix.length = 13 := rfl
+
+/-- `defaultconf`, for every buffer size: accepted iff `strlen(home) + 13` (the length of `home/.mdsort.conf`) is
+smaller than the buffer, and then the result is `home ++ "/.mdsort.conf"` in full - never a truncation of it. -/
+theorem C18_defaultconf_exact (siz : Nat) (home : Bytes) :
+    defaultconf siz home = (if home.length + 13 < siz then some (home ++ confSuffix) else none) ∧
+    (∀ p, defaultconf siz home = some p → p = home ++ confSuffix) := by
+  have hl : (home ++ confSuffix).length = home.length + 13 := by rw [List.length_append, confSuffix_length]
+  have key : defaultconf siz home = (if home.length + 13 < siz then some (home ++ confSuffix) else none) := by
+    unfold defaultconf defaultconfWith snprintfInto
+    simp only [hl]
+    by_cases h : home.length + 13 < siz
+    · have h2 : ¬ home.length + 13 ≥ siz := by omega
+      simp only [h, h2, decide_false, Bool.false_eq_true, if_false, if_true]
+      rw [List.take_of_length_le (by rw [hl]; omega)]
+    · have h2 : home.length + 13 ≥ siz := by omega
+      simp only [h, h2, decide_true, if_true, if_false]
+  refine ⟨key, ?_⟩
+  intro p hp
+  rw [key] at hp
+  split at hp
+  · exact (Option.some.inj hp).symm
+  · cases hp
+
+/-- With `PATH_MAX = 4096`: a home directory of up to 4082 bytes is accepted, 4083 and more rejected. -/
+theorem C18_defaultconf_limit (home : Bytes) :
+    (defaultconf PATH_MAX home).isSome = decide (home.length ≤ 4082) := by
+  rw [(C18_defaultconf_exact PATH_MAX home).1]
+  by_cases h : home.length ≤ 4082
+  · have : home.length + 13 < PATH_MAX := by unfold PATH_MAX; omega
+    simp [h, this]
+  · have : ¬ home.length + 13 < PATH_MAX := by unfold PATH_MAX; omega
+    simp [h, this]
+
+/-- Why the test is `n >= siz`: with `n > siz` (one too lenient) a home directory for which `home/.mdsort.conf` has
+exactly `siz` bytes is ACCEPTED and the path handed to `config_parse` is the string minus its last byte
+(`home/.mdsort.con`), a different file - for every buffer size. -/
+theorem C18_defaultconf_needs_ge (siz : Nat) (home : Bytes) (h : home.length + 13 = siz) :
+    defaultconfWith (fun n siz => n > siz) siz home = some ((home ++ confSuffix).take (siz - 1)) ∧
+    (home ++ confSuffix).take (siz - 1) ≠ home ++ confSuffix ∧
+    (home ++ confSuffix).take (siz - 1) = home ++ confSuffix.take 12 := by
+  have hl : (home ++ confSuffix).length = home.length + 13 := by rw [List.length_append, confSuffix_length]
+  refine ⟨?_, ?_, ?_⟩
+  · unfold defaultconfWith snprintfInto
+    simp only [hl]
+    have : ¬ home.length + 13 > siz := by omega
+    simp [this]
+  · intro he
+    have := congrArg List.length he
+    rw [List.length_take, hl] at this
+    omega
+  · rw [List.take_append]
+    have e1 : siz - 1 - home.length = 12 := by omega
+    rw [e1, List.take_of_length_le (by omega)]
+
+theorem strlcpyFits_some {n : Nat} {s r : Bytes} (h : strlcpyFits n s = some r) : r = s ∧ s.length < n := by
+  unfold strlcpyFits at h
+  split at h
+  · cases h
+  · cases h; exact ⟨rfl, by omega⟩
+
+/-- `readenv` copies HOME, TMPDIR and TZ in full or ends the run: accepted iff each value is shorter than its buffer
+(`PATH_MAX`, `PATH_MAX`, 256); what the run continues with is the complete value. -/
+theorem C18_readenv_exact (raw : RawEnv) (h t : Bytes) (hh : raw.home = some h) (hne : h ≠ []) (ht : raw.tmpdir = some t) (tne : t ≠ []) :
+    readenv raw =
+      if h.length ≥ PATH_MAX then .error .homeTooLong
+      else if t.length ≥ PATH_MAX then .error .tmpdirTooLong
+      else match raw.tz with
+        | none => .ok (h, t, none)
+        | some z => if z.length ≥ TZ_BUF then .error .tzTooLong else .ok (h, t, some z) := by
+  have h1 : h.isEmpty = false := by cases h <;> simp_all
+  have t1 : t.isEmpty = false := by cases t <;> simp_all
+  have hs : homeSource raw = some h := by unfold homeSource; rw [hh]; simp [h1]
+  have ts : tmpSource raw = t := by unfold tmpSource; rw [ht]; simp [t1]
+  unfold readenv
+  rw [hs, ts]
+  unfold strlcpyFits
+  by_cases c1 : h.length ≥ PATH_MAX
+  · simp only [c1, if_true]
+  · simp only [c1, if_false]
+    by_cases c2 : t.length ≥ PATH_MAX
+    · simp only [c2, if_true]
+    · simp only [c2, if_false]
+      cases hz : raw.tz with
+      | none => rfl
+      | some z =>
+        simp only
+        by_cases c3 : z.length ≥ TZ_BUF
+        · simp only [c3, if_true]
+        · simp only [c3, if_false]
+
+theorem readenv_ok {raw : RawEnv} {hm tm : Bytes} {z : Option Bytes} (hr : readenv raw = .ok (hm, tm, z)) :
+    homeSource raw = some hm ∧ hm.length < PATH_MAX ∧ tm = tmpSource raw ∧ tm.length < PATH_MAX := by
+  unfold readenv at hr
+  split at hr
+  · cases hr
+  · rename_i p hp
+    split at hr
+    · cases hr
+    · rename_i home hhome
+      split at hr
+      · cases hr
+      · rename_i tmpdir htmp
+        obtain ⟨e1, l1⟩ := strlcpyFits_some hhome
+        obtain ⟨e2, l2⟩ := strlcpyFits_some htmp
+        have : hm = home ∧ tm = tmpdir := by
+          split at hr
+          · cases hr; exact ⟨rfl, rfl⟩
+          · split at hr
+            · cases hr
+            · cases hr; exact ⟨rfl, rfl⟩
+        obtain ⟨rfl, rfl⟩ := this
+        subst e1 e2
+        exact ⟨hp, l1, rfl, l2⟩
+
+/-- The paths a run starts from are never truncations: whenever `main` gets as far as `config_parse`, the home
+directory and the temporary directory are the complete values of the environment (or of the password entry /
+`_PATH_TMP`), shorter than `PATH_MAX`, and the configuration path is the `-f` argument or
+`home ++ "/.mdsort.conf"` in full, shorter than `PATH_MAX`. -/
+theorem C18_start_never_truncates (raw : RawEnv) (fOpt : Option Bytes) (home tmpdir confpath : Bytes)
+    (h : startPaths raw fOpt = .ok (home, tmpdir, confpath)) :
+    homeSource raw = some home ∧ home.length < PATH_MAX ∧ tmpdir = tmpSource raw ∧ tmpdir.length < PATH_MAX ∧
+    (fOpt = some confpath ∨ (fOpt = none ∧ confpath = home ++ confSuffix ∧ confpath.length < PATH_MAX)) := by
+  unfold startPaths at h
+  split at h
+  · cases h
+  · rename_i hm tm z hr
+    have hre := readenv_ok hr
+    split at h
+    · cases h
+      exact ⟨hre.1, hre.2.1, hre.2.2.1, hre.2.2.2, Or.inl rfl⟩
+    · split at h
+      · cases h
+      · rename_i c hd
+        cases h
+        have hc := (C18_defaultconf_exact PATH_MAX home).2 confpath hd
+        have hlen : confpath.length < PATH_MAX := by
+          have := (C18_defaultconf_exact PATH_MAX home).1
+          rw [hd] at this
+          split at this
+          · rw [hc, List.length_append, confSuffix_length]; assumption
+          · cases this
+        exact ⟨hre.1, hre.2.1, hre.2.2.1, hre.2.2.2, Or.inr ⟨rfl, hc, hlen⟩⟩
+
+/-- The run without `-f`: either it ends with status 1 before ANY call (no file is opened, in particular none at a
+truncation of the intended path), or its first call is `fopen` of exactly `home ++ "/.mdsort.conf"`. -/
+theorem C18_default_config_first_call (raw : RawEnv) (env : PEnv) (orc : EvalOracles) (confOk : Bool) (conf : List ConfBlock)
+    (files : Files) (input : Bytes) :
+    (∃ st, mainFromEnv raw none env orc confOk conf files input = .ret (1, st)) ∨
+    (∃ home tmpdir, startPaths raw none = .ok (home, tmpdir, home ++ confSuffix) ∧ homeSource raw = some home ∧
+      ∃ k, mainFromEnv raw none env orc confOk conf files input = .call (.fopen (home ++ confSuffix)) k) := by
+  unfold mainFromEnv
+  cases hs : startPaths raw none with
+  | error e => left; exact ⟨_, rfl⟩
+  | ok v =>
+    obtain ⟨home, tmpdir, confpath⟩ := v
+    right
+    have hall := C18_start_never_truncates raw none home tmpdir confpath hs
+    rcases hall.2.2.2.2 with h | ⟨_, hc, _⟩
+    · cases h
+    · subst hc
+      refine ⟨home, tmpdir, rfl, hall.1, ?_⟩
+      simp only
+      unfold mainP
+      exact ⟨_, rfl⟩
+
+/-! Non-vacuity: a home directory at the limit, one byte beyond, and a complete environment. -/
+
+example : confSuffix = ofString "/.mdsort.conf" := by decide +kernel
+
+example : (defaultconf PATH_MAX (List.replicate 4082 104)).isSome = true ∧ (defaultconf PATH_MAX (List.replicate 4083 104)).isSome = false := by
+  rw [C18_defaultconf_limit, C18_defaultconf_limit, List.length_replicate, List.length_replicate]
+  decide
+
+example : (List.replicate 4083 104 : Bytes).length + 13 = PATH_MAX := by rw [List.length_replicate]; decide
+
+example : (startPaths { home := some (ofString "/home/u"), pwdir := none, tmpdir := some (ofString "/tmp/x"), tz := none, pathTmp := ofString "/tmp/" } none).toOption =
+    some (ofString "/home/u", ofString "/tmp/x", ofString "/home/u/.mdsort.conf") := by decide +kernel
+
+example : ∃ raw : RawEnv, ∃ h t, raw.home = some h ∧ h ≠ [] ∧ raw.tmpdir = some t ∧ t ≠ [] :=
+  ⟨{ home := some [47], pwdir := none, tmpdir := some [47], tz := none, pathTmp := [] }, [47], [47], rfl, by decide, rfl, by decide⟩
 
 end Mdsort.Props
